@@ -49,8 +49,43 @@ def native_replay(pool, ob, test_text, prop):
     return ok_dev, ok_rel, rpath
 
 
+def native_probe(ob, prop, goals):
+    """Replay for an existential obligation (solver: goal unreachable for EVERY input): a native sampling probe
+    against the real crate that must fail to reach the goal as well."""
+    rdir = os.path.join(VERIF, "replays", prop)
+    os.makedirs(rdir, exist_ok=True)
+    rpath = os.path.join(rdir, ob.harness.replace("::", ".") + ".probe")
+    with open(rpath, "w") as f:
+        f.write("native-probe group=%s test=%s::%s\n" % (ob.group, ob.native[0], ob.native[1]))
+        f.write("# harness %s: goals the solver shows unreachable for every input:\n" % ob.harness)
+        for g in goals:
+            f.write("#   " + g + "\n")
+        f.write("# run: ./check %s --replay %s\n" % (prop, os.path.relpath(rpath, VERIF)))
+    ok = run_probe_file(rpath, prop)
+    return ok, ok, rpath
+
+
+def run_probe_file(rpath, prop):
+    m = re.search(r"native-probe group=(\S+) test=(\S+)::(\S+)", open(rpath).read())
+    group, tfile, tname = m.groups()
+    env = dict(os.environ)
+    env["CARGO_NET_OFFLINE"] = "true"
+    tdir = os.path.join(kani.BUILD, prop, "native_" + group)
+    p = subprocess.run(["cargo", "test", "--release", "--offline", "--target-dir", tdir, "--test", tfile, tname, "--", "--exact"],
+                       cwd=os.path.join(VERIF, "harness", group), env=env, stdout=subprocess.PIPE, stderr=subprocess.STDOUT, text=True)
+    sys.stdout.write("".join(l + "\n" for l in p.stdout.splitlines() if "panicked" in l or "reached" in l or "test result" in l))
+    if "test result: FAILED" in p.stdout:
+        return True
+    if "test result: ok. 1 passed" in p.stdout:
+        return False
+    return None
+
+
 def run_replay_file(rpath, prop):
     text = open(rpath).read()
+    if text.startswith("native-probe"):
+        r = run_probe_file(rpath, prop)
+        return r, r
     m = re.search(r"harness (\S+) \(group (\S+)\)\n// features=(.*) cfgs=(.*) dbg=(\w+)", text)
     harness, group = m.group(1), m.group(2)
     features = eval(m.group(3)); cfgs = eval(m.group(4)); dbg = m.group(5) == "True"
@@ -171,11 +206,19 @@ def main():
         if r.status == "FAIL":
             real = [f for f in r.failed if not f.get("cover")]
             descs = [f["desc"] for f in real]
-            test = pool.playback(ob)
-            if not test:
+            if ob.exists and not [f for f in real if "cover " not in f["desc"]]:
+                d, rl, rpath = native_probe(ob, prop, descs)
+                test = None
+            else:
+                test = pool.playback(ob)
+                d = rl = rpath = None
+            if ob.exists and rpath:
+                pass
+            elif not test:
                 inconclusive.append({"obligation": ob.harness, "reason": "failed but no concrete playback produced", "failed": descs})
                 continue
-            d, rl, rpath = native_replay(pool, ob, test, prop)
+            if rpath is None:
+                d, rl, rpath = native_replay(pool, ob, test, prop)
             rec["replay"] = {"path": os.path.relpath(rpath, VERIF), "dev": d, "release_like": rl}
             if not (d or rl):
                 inconclusive.append({"obligation": ob.harness, "reason": "counterexample does not reproduce natively (encoding disagreement)", "failed": descs})
